@@ -216,7 +216,7 @@ func propC08() *Prop {
 			js = append(js, threadJob(job("C08c/stale-result-does-not-block[straggler fails after the trip]", "circuitbreaker", "VerifC07Straggler", 0), 2))
 			js = append(js, threadJob(job("C08c/stale-result-does-not-block[straggler succeeds after the trip]", "circuitbreaker", "VerifC07Straggler", 1), 2))
 			js = append(js, lbJob("C08a/every-accepted-configuration-recovers[real validation + real setupCircuitBreaker, thresholds 1..3, max_requests unset..3]", "VerifC08Config"))
-			for k := int64(2); k <= tierPick(tier, 3, 5); k++ {
+			for k := int64(2); k <= tierPick(tier, 3, 4); k++ {
 				js = append(js, job(fmt.Sprintf("C08a/recovery-after-history[k=%d]", k), "circuitbreaker", "VerifC08Recovery", k))
 			}
 			return js
@@ -224,7 +224,7 @@ func propC08() *Prop {
 		Assumptions: commonAssumptions,
 		Bounds: map[string]string{
 			"quick":    "thresholds 1..3, recovery script from any invariant state and after every history of <= 3 events",
-			"thorough": "same, histories <= 5 events",
+			"thorough": "same, histories <= 4 events",
 		},
 		Outside: []string{"thresholds above 3 in the recovery script (loop bound)"},
 	}
@@ -247,7 +247,7 @@ func propC02() *Prop {
 		ID: "C02", Title: "Failover: only healthy backends are used; 503 only when none is healthy",
 		Jobs: func(tier string) []*sym.Job {
 			var js []*sym.Job
-			maxN := tierPick(tier, 4, 6)
+			maxN := tierPick(tier, 4, 5)
 			for s := int64(0); s < 5; s++ {
 				for n := int64(1); n <= maxN; n++ {
 					if s == 3 && n > tierPick(tier, 3, 4) {
@@ -282,7 +282,7 @@ func propC02() *Prop {
 		Assumptions: append([]string{"pool state is arbitrary: per backend any health flag, window end zero or any instant within 2^40 ns of now, any gauge 0..2^30, any weight 1..1024, any smooth-WRR running weight within +-2^20, any rotation counter < 2^63 (over-approximates every history of ejections, expiries, adds and removes)"}, commonAssumptions...),
 		Bounds: map[string]string{
 			"quick":    "pools of 1..4 backends, all five strategies, one dispatch decision from an arbitrary state; two decisions in a row (any time and fresh ejections between) for N<=2; ip_hash with every 3-byte client string for N<=3; ip_hash_consistent with one concrete client",
-			"thorough": "pools of 1..6 backends (ip_hash symbolic client N<=4); two decisions in a row for N<=3",
+			"thorough": "pools of 1..5 backends (ip_hash symbolic client N<=4); two decisions in a row for N<=3",
 		},
 		Outside: []string{"pools larger than 6", "client strings other than 3 bytes in this property (see C06)"},
 	}
@@ -523,9 +523,9 @@ func propC01() *Prop {
 			js = append(js, lbJob(fmt.Sprintf("C01a/writer-transparency[k=%d]", tierPick(tier, 3, 4)), "VerifC01Writer", tierPick(tier, 3, 4)))
 			js = append(js, lbJob("C01c/no-rewriting-hooks", "VerifC03Timeouts"))
 			js = append(js, job("C01b/middleware-transparency", "logging", "VerifC01Middleware"))
-			js = append(js, mainJob("C01d/full-handler-stack[plugins -> middleware -> balancer -> scripted backend]", "VerifStack", 0, tierPick(tier, 2, 3), 0))
+			js = append(js, mainJob("C01d/full-handler-stack[plugins -> middleware -> balancer -> scripted backend]", "VerifStack", 0, 2, 0))
 			js = append(js, mainJob("C01d/full-handler-stack[backend sends 0..2 interim 103 responses with their own headers]", "VerifStack", 0, 1, 1))
-			js = append(js, mainJob("C01d/full-handler-stack[breaker enabled: every backend status incl. 5xx, refused, aborted]", "VerifStack", 1, tierPick(tier, 2, 3), 0))
+			js = append(js, mainJob("C01d/full-handler-stack[breaker enabled: every backend status incl. 5xx, refused, aborted]", "VerifStack", 1, 2, 0))
 			return js
 		},
 		Assumptions: append([]string{"claimed for the Helios-owned layers between net/http and httputil.ReverseProxy only: the status-capturing responseWriter, RequestContextMiddleware, and the per-backend proxy construction; hop-by-hop handling, framing, HTTP/2 and the Transport are the Go standard library and are trusted", "the client connection is a recording ResponseWriter implementing net/http's documented contract (first final WriteHeader wins and freezes the header snapshot, Write/Flush imply 200, 1xx are interim)", "flush requests are issued through the real http.NewResponseController(...).Flush() as ReverseProxy does"}, commonAssumptions...),
